@@ -514,7 +514,7 @@ def rule_P5(repo: Repo) -> RuleResult:
                     # the base is the comprehension variable: what matters is the iterable
                     src_names = {x.id for x in ast.walk(g.iter) if isinstance(x, ast.Name)}
         bad = sorted(s for s in src_names if s in tainted and _reaches_tainted_def(f, s, n, tainted))
-        construct = f"{norm(n)} in {f.qualname}"
+        construct = f"<per-group results>[{norm(n.slice)}] in {f.qualname}"      # independent of the spelling of the indexed local
         if bad:
             res.bad(f, n, construct,
                     f"the array indexed by the row codes derives from {bad} which carries the label-sorted / group-sorted "
@@ -591,7 +591,7 @@ def rule_P6(repo: Repo) -> RuleResult:
                         res.bad(b, k.value, "ngroups=" + norm(k.value), "row-aligned kernels are sized without the null slot")
     # every P5 site: the indexed array comes from a slot-carrying allocation
     for g, n in p5_sites(repo):
-        construct = f"{norm(n)} in {g.qualname}"
+        construct = f"<per-group results>[{norm(n.slice)}] in {g.qualname}"
         comp = _enclosing_comp(g, n)
         srcs = set()
         if comp is not None:
